@@ -20,7 +20,7 @@ CHECKS = {
 
 CHECKS["C02"] = {
     "technique": "MIR abstract interpretation on fully expanded, tree-shaped bodies: per-path postconditions (success exit = source address with source extent == target extent; rejecting exits only under len != N) + delegation, signature-region and aggregate-position rules",
-    "text": "Static analysis of the polymorphic MIR (length N symbolic, so the verdict covers every N and T): the view constructors return (address of self, N elements); at each slice-to-array reborrow the dominating branch facts prove len == N exactly (a `<`/`>`/`>=` guard is reported), the rejecting exits are reached only under len != N, and the success value is the source pointer itself; [T; U] conversions have equal symbolic sizes under the Const<U>: IntoArrayLength<ArrayLength = N> clause; the trait forms delegate to those; the 24 tuple impls keep operand i at position i; every returned reference's region and mutability is tied to its source parameter. A sweep applies the exact-extent rule to any other slice-derived reborrow in the crate.",
+    "text": "Static analysis of the polymorphic MIR (length N symbolic, so the verdict covers every N and T): the view constructors return (address of self, N elements); at each slice-to-array reborrow the dominating branch facts prove len == N exactly (a `<`/`>`/`>=` guard is reported), the rejecting exits are reached only under len != N, and the success value is the source pointer itself; [T; U] conversions have equal symbolic sizes under the Const<U>: IntoArrayLength<ArrayLength = N> clause; the trait forms delegate to those; the 24 tuple impls keep operand i at position i; every returned reference's region and mutability is tied to its source parameter. A sweep applies the exact-extent rule to any other slice-derived reborrow in the crate. C02.M: the same write-permission rule for the mutable views.",
     "design_ref": "DESIGN.md §3 C02",
     "note": TRUST + " 'A write through one view is seen through all others' is entailed by same address + same extent and is not separately observed.",
 }
@@ -33,7 +33,7 @@ CHECKS["C09"] = {
 }
 CHECKS["C10"] = {
     "technique": "MIR abstract interpretation with floor-division axioms: per return path, the returned views tile the source exactly (any construction idiom); symbolic size equality for the slice reinterpretations",
-    "text": "Static analysis of the polymorphic MIR (slice length L and N symbolic): the two pieces built by chunks_from_slice(_mut) are proved to tile the source exactly (adjacent, no overlap, end at L), the remainder to be < N, the pieces to be reached only under N != 0, and the N = 0 branch to return empties only under L = 0 and to panic under L != 0; slice_from_chunks(_mut) covers exactly len*N elements from offset 0; from_chunks/into_chunks(_mut) transmute between slices of equal element size under the Const<U>: IntoArrayLength<ArrayLength = N> clause and return the source fat pointer; lifetimes/mutability tied to the source. PARTIAL: acceptance by the compiler's const evaluator is an execution and is not decided here.",
+    "text": "Static analysis of the polymorphic MIR (slice length L and N symbolic): the two pieces built by chunks_from_slice(_mut) are proved to tile the source exactly (adjacent, no overlap, end at L), the remainder to be < N, the pieces to be reached only under N != 0, and the N = 0 branch to return empties only under L = 0 and to panic under L != 0; slice_from_chunks(_mut) covers exactly len*N elements from offset 0; from_chunks/into_chunks(_mut) transmute between slices of equal element size under the Const<U>: IntoArrayLength<ArrayLength = N> clause and return the source fat pointer; lifetimes/mutability tied to the source. PARTIAL: acceptance by the compiler's const evaluator is an execution and is not decided here. Extents are compared in bytes AND in elements (len * N resp. chunks * N + remainder == len), so zero-sized element types are covered.",
     "design_ref": "DESIGN.md §3 C10",
     "note": TRUST + " len*N overflow for zero-sized T with astronomically long slices is excluded by assumption.",
 }
@@ -46,7 +46,7 @@ CHECKS["C11"] = {
 
 CHECKS["C01"] = {
     "technique": "item-fact rules on ADT reprs / ArrayLength impls (layout induction premises) + compiler layout_of oracle over a generated type lattice",
-    "text": "Static: (S) the premises of the layout induction over N's binary digits are checked on the type-checked crate's item facts (transparent wrapper over N::ArrayType<T>; [T; 0] base; even/odd impls map to repr(C) nodes made of exactly two children, `parity` trailing T and PhantomData only; exactly three ArrayLength impls; sealed trait) - a universal argument in T and N; (L) rustc's layout_of query is evaluated inside the driver for GenericArray<E, N> over the property's lattice (quick: 8 element layouts x (0..=1024 + 2^k, 2^k-1, 10^k up to 2^62); thorough: every (size 0..=64, align 1..=64) pair plus padded/packed/nested/ZST types, ~174k probes, repeated with -Zrandomize-layout), checking size = N*size_of T, align = align_of T and, node by node, that element-bearing fields sit at exactly the cumulative element offsets (no padding/overlap); types >= 2^61 bytes cannot exist and are counted separately, never as a pass; (T) const_transmute's union read is dominated by its size-equality guard. No code of the crate is executed: layouts are a compiler query over types.",
+    "text": "Static: (S) the premises of the layout induction over N's binary digits are checked on the type-checked crate's item facts (transparent wrapper over N::ArrayType<T>; [T; 0] base; even/odd impls map to repr(C) nodes made of exactly two children, `parity` trailing T and PhantomData only; exactly three ArrayLength impls; sealed trait) - a universal argument in T and N; (L) rustc's layout_of query is evaluated inside the driver for GenericArray<E, N> over the property's lattice (quick: 8 element layouts x (0..=1024 + 2^k, 2^k-1, 10^k up to 2^62); thorough: every (size 0..=64, align 1..=64) pair plus padded/packed/nested/ZST types, ~174k probes, repeated with -Zrandomize-layout), checking size = N*size_of T, align = align_of T and, node by node, that element-bearing fields sit at exactly the cumulative element offsets (no padding/overlap); types >= 2^61 bytes cannot exist and are counted separately, never as a pass; (T) const_transmute's union read is dominated by its size-equality guard. No code of the crate is executed: layouts are a compiler query over types. The consequence clause (slice views stay inside the array) is covered by cross-reference: C02.V (views of one array have exactly N elements from its address) and C10.F (arrays viewed as one flat slice: exactly len * N elements).",
     "design_ref": "DESIGN.md §3 C01",
     "note": "Trusted: rustc's layout computation and the documented repr(C)/repr(transparent) algorithms; typenum's USIZE recursion. Element types outside the lattice are covered by rule S only.",
 }
@@ -119,13 +119,13 @@ CHECKS["C16"] = {
 
 CHECKS["C17"] = {
     "technique": "MIR rules on the serde impls: serializer-call skeleton, per-path facts at every Ok(array) exit (builder full, after finish, no-surplus evidence), builder step protocol and owner liveness on ?/unwind paths",
-    "text": "Static analysis of impl_serde.rs: serialize = serialize_tuple(N)?, one serialize_element per item of the full forward iteration of &self (passing that item), then end() - no other serializer entry point, hence no length prefix; deserialize = deserialize_tuple(N, visitor); visit_seq rejects up front only under size_hint = Some(n), n != N, reads one next_element()? per destination slot into that slot and counts it (builder protocol), constructs Ok only under position == N and, on every CFG edge into the success path, either the remaining-size hint equals the probe constant or the extra next_element::<Dummy>()? returned None, keeps the builder live (dropped) on every unwind and `?` path so the elements read so far are released exactly once, and reaches finish/array_assume_init only on the success path. PARTIAL: round-trip equality through a concrete format is a property of serializer/deserializer pairs executed on data and is not claimed.",
+    "text": "Static analysis of impl_serde.rs: serialize = serialize_tuple(N)?, one serialize_element per item of the full forward iteration of &self (passing that item), then end() - no other serializer entry point, hence no length prefix; deserialize = deserialize_tuple(N, visitor); visit_seq rejects up front only under size_hint = Some(n), n != N, reads one next_element()? per destination slot into that slot and counts it (builder protocol), constructs Ok only under position == N and, on every CFG edge into the success path, either the remaining-size hint equals the probe constant or the extra next_element::<Dummy>()? returned None, keeps the builder live (dropped) on every unwind and `?` path so the elements read so far are released exactly once, and reaches finish/array_assume_init only on the success path. PARTIAL: round-trip equality through a concrete format is a property of serializer/deserializer pairs executed on data and is not claimed. The up-front hint check is complete: every path from size_hint to the first element read carries `None` or `hint == N` (a source announcing more than N is rejected before anything is read).",
     "design_ref": "DESIGN.md §3 C17",
     "note": TRUST + " serde implementations honour their trait contracts; the probe constant Some(0) sits in a promoted constant whose value is not inspected.",
 }
 CHECKS["C18"] = {
     "technique": "item facts (constness/visibility of the frozen const surface), const-qualification witnesses in const fn position (no evaluation), zero-count rule for const/run-time divergence intrinsics with a positive fixture, cross-referenced pointer/extent obligations",
-    "text": "PARTIAL CLAIM. Not decided: that the const evaluator accepts each call on the lattice of lengths, and that compile-time and run-time values agree - both are executions of the crate's MIR by an interpreter. Decided statically: every function of the frozen const surface (27 + const_default) is still `const fn` (and exported), each is called from a const fn witness (rustc's const-qualification, nothing is evaluated) with a reject twin calling a non-const fn, arr! expands in const fn position in all its forms; no body of the crate calls const_eval_select-style intrinsics, so compile time and run time execute the same MIR (the matcher is exercised on a positive fixture); and the UB-freedom obligations of the raw operations inside those const fns - the instances of C02.V/G/T, C10.C/F/X, C01.T, C03.A, which hold for all N and all slice lengths - are re-checked here.",
+    "text": "PARTIAL CLAIM. Not decided: that the const evaluator accepts each call on the lattice of lengths, and that compile-time and run-time values agree - both are executions of the crate's MIR by an interpreter. Decided statically: every function of the frozen const surface (27 + const_default) is still `const fn` (and exported), each is called from a const fn witness (rustc's const-qualification, nothing is evaluated) with a reject twin calling a non-const fn, arr! expands in const fn position in all its forms; no body of the crate calls const_eval_select-style intrinsics, so compile time and run time execute the same MIR (the matcher is exercised on a positive fixture); and the UB-freedom obligations of the raw operations inside those const fns - the instances of C02.V/G/T, C10.C/F/X, C01.T, C03.A, which hold for all N and all slice lengths - are re-checked here. C18.M write permission: no pointer derived from a shared borrow is written through, handed to from_raw_parts_mut / ptr::write / a copy destination, or reborrowed as &mut, whatever casts lie in between (the condition under which the const evaluator rejects a write; taint dataflow over every body, positive and negative fixture).",
     "design_ref": "DESIGN.md §3 C18, §4",
     "note": TRUST + " The const evaluator's faithfulness to MIR semantics is trusted.",
 }
